@@ -217,6 +217,25 @@ where
     }
 }
 
+/// Verification hook (only compiled with `--cfg etherparse_verif`): exposes the
+/// bookkeeping of the pool so that the release of streams and the recycling of
+/// buffers can be observed from the outside.
+#[cfg(etherparse_verif)]
+impl<Timestamp, CustomChannelId> IpDefragPool<Timestamp, CustomChannelId>
+where
+    Timestamp: Sized + core::fmt::Debug + Clone,
+    CustomChannelId: Sized + core::fmt::Debug + Clone + core::hash::Hash + Eq + PartialEq,
+{
+    /// Returns (number of active streams, pooled data buffers, pooled section buffers).
+    pub fn verif_stats(&self) -> (usize, usize, usize) {
+        (
+            self.active.len(),
+            self.finished_data_bufs.len(),
+            self.finished_section_bufs.len(),
+        )
+    }
+}
+
 impl<Timestamp, CustomChannelId> Default for IpDefragPool<Timestamp, CustomChannelId>
 where
     Timestamp: Sized + core::fmt::Debug + Clone,
